@@ -706,7 +706,7 @@ class Ctx(object):
         self.engine.stats.reach += 1
         self.engine.reached.add(name)
 
-    def check(self, name, violated, concrete=None, margin=None, note=None):
+    def check(self, name, violated, concrete=None, margin=None, note=None, witness=None):
         """Obligation: `violated` must be unsatisfiable under the path condition.
 
         `violated` is a polymorphic boolean (SBool / z3 Bool / Python bool).  In
@@ -741,6 +741,12 @@ class Ctx(object):
         if r == z3.sat:
             # prefer an interior model (survives rounding to doubles)
             rm = self._robust_model(t)
+            if witness is not None:
+                # the verdict is decided by `violated`; for the counterexample a model of the STRONGER formula
+                # `witness` (e.g. the identity off by more than the replay tolerance) is preferred
+                wr, wm = self._fresh_solve(z3.And(t, tobool3(witness)))
+                if wr == z3.sat and wm is not None:
+                    rm = wm
             first = self.assignment(rm if rm is not None else m)
             eng.candidates.append({
                 'check': name, 'config': eng.config_name, 'note': note, 'assignment': first,
@@ -975,7 +981,7 @@ class ConcreteCtx(object):
     def reach(self, name='assert'):
         pass
 
-    def check(self, name, violated, concrete=None, margin=None, note=None):
+    def check(self, name, violated, concrete=None, margin=None, note=None, witness=None):
         v = concrete() if concrete is not None else violated
         self.checks.append((name, bool(v)))
         return not v
